@@ -88,10 +88,3 @@ Lemma example_hyps10 :
   wfM QcF 2 eA /\ length ey = length eA /\ (forall v : list QcF, absR (dot QcF v v) = dot QcF v v) /\
   x0_ok QcF 2 (Some [qz 1; qz (-1)]) /\ linop QcF 2 2 (normal_op QcF 2 eA ed).
 Proof. destruct example_hyps as (W & L & _ & H & X & _). repeat split; auto; apply (normal_op_linop QcF 2 eA W ed). Qed.
-
-(* a state satisfying the hypotheses of cgls_step_descent (CGLSMono.v): the setup state of the example *)
-Lemma example_descent_hyps :
-  let st := cgls_setup QcF absR 2 eA ey (Some [qz 1; qz (-1)]) ed in
-  dot QcF (cl_c QcF st) (cl_r QcF st) = cl_kold QcF st /\
-  (dot QcF (cl_q QcF st) (cl_q QcF st) + ed * ed * dot QcF (cl_c QcF st) (cl_c QcF st))%Qc <> 0%Qc.
-Proof. split; [apply Qc_eq_bool_correct; vm_compute; reflexivity | apply neqb_neq; vm_compute; reflexivity]. Qed.
